@@ -304,10 +304,12 @@ uint64_t cmb_timeseries_copy(struct cmb_timeseries *tgt,
         tgt->ta = NULL;
     }
 
+    /* Same allocated size as the x-array copied above, the arrays grow in step */
     const uint64_t csz = dsp_src->count;
+    const uint64_t asz = dsp_src->cursize;
     if (src->ta != NULL) {
         cmb_assert_debug(csz > 0u);
-        tgt->ta = cmi_calloc(csz, sizeof *(tgt->ta));
+        tgt->ta = cmi_calloc(asz, sizeof *(tgt->ta));
         cmi_memcpy(tgt->ta, src->ta, csz * sizeof *(tgt->ta));
     }
 
@@ -318,7 +320,7 @@ uint64_t cmb_timeseries_copy(struct cmb_timeseries *tgt,
 
     if (src->wa != NULL) {
         cmb_assert_debug(csz > 0u);
-        tgt->wa = cmi_calloc(csz, sizeof *(tgt->wa));
+        tgt->wa = cmi_calloc(asz, sizeof *(tgt->wa));
         cmi_memcpy(tgt->wa, src->wa, csz * sizeof *(tgt->wa));
     }
 
